@@ -1041,7 +1041,13 @@ func (c *Ctx) blockingInstr(in ssa.Instruction, may map[*ssa.Function]string) st
 		if callee == nil {
 			return "calls a function value"
 		}
-		if isSyncLockCall(cc) != "" {
+		if op := isSyncLockCall(cc); op != "" {
+			// (after seed C05h) taking a lock is itself something that can block: a function that does so must not
+			// be called while a package-level lock is held - not even the same lock for reading (a writer that
+			// arrives between the two RLocks of one goroutine stops both, and then everybody)
+			if may == nil && (op == "Lock" || op == "RLock") {
+				return "takes a lock (" + calleeName(cc) + ")"
+			}
 			return ""
 		}
 		if c.isLibPkg(funcPkg(callee)) {
@@ -1257,4 +1263,84 @@ func rulePoolRelease(c *Ctx, r *Report) {
 		r.info(rule, "scan/pools", "-", desc, "no sync.Pool is used by the library: no object changes hands between interpreters")
 	}
 	r.analysed(rule, fmt.Sprintf("%d library functions scanned for (*sync.Pool).Put, %d release obligations", len(c.LibFuncs()), n))
+}
+
+// ---------------------------------------------------------------------------
+// R-ALIASED-BUFFER (C14, C02; added after seed C14h): the lexer hands out token strings that ALIAS its byte buffer
+// (a []byte reinterpreted as a string through unsafe.Pointer), and NewAtom keeps the string it is given - as a key
+// and as the name - in the atom table that all interpreters share. Such a buffer may only grow (growth moves to a
+// new array and leaves the old bytes alone): for every bytes.Buffer field whose Bytes() reach an unsafe.Pointer
+// conversion somewhere in the library, no library function calls Reset or Truncate on that field. A reset lets the
+// next tokens overwrite bytes that atom names in another interpreter still point to: foo is no longer foo there.
+func ruleAliasedBuffer(c *Ctx, r *Report) {
+	const rule = "R-ALIASED-BUFFER"
+	desc := "a byte buffer whose contents are handed out as strings without copying is never reset or truncated"
+	type fieldKey struct {
+		typ   string
+		field int
+	}
+	bufField := func(v ssa.Value) (fieldKey, bool) {
+		fa, ok := v.(*ssa.FieldAddr)
+		if !ok || !isNamedIn(fa.Type().(*types.Pointer).Elem(), "bytes", "Buffer") {
+			return fieldKey{}, false
+		}
+		return fieldKey{typeName(deref(fa.X.Type())), fa.Field}, true
+	}
+	aliased := map[fieldKey]string{}
+	for _, fn := range c.LibFuncs() {
+		usesUnsafe := false
+		eachInstr(fn, func(in ssa.Instruction) {
+			if cv, ok := in.(*ssa.Convert); ok {
+				if b, ok := cv.Type().Underlying().(*types.Basic); ok && b.Kind() == types.UnsafePointer {
+					usesUnsafe = true
+				}
+			}
+		})
+		if !usesUnsafe {
+			continue
+		}
+		eachInstr(fn, func(in ssa.Instruction) {
+			call, ok := in.(*ssa.Call)
+			if !ok {
+				return
+			}
+			callee := call.Call.StaticCallee()
+			if callee == nil || callee.Name() != "Bytes" || callee.Signature.Recv() == nil || !isNamedIn(callee.Signature.Recv().Type(), "bytes", "Buffer") {
+				return
+			}
+			if k, ok := bufField(call.Call.Args[0]); ok {
+				aliased[k] = fname(fn)
+			}
+		})
+	}
+	if len(aliased) == 0 {
+		r.info(rule, "scan/aliased-buffers", "-", desc, "no bytes.Buffer of the library is read through unsafe.Pointer")
+		return
+	}
+	n := 0
+	for _, fn := range c.LibFuncs() {
+		eachInstr(fn, func(in ssa.Instruction) {
+			ci, ok := in.(ssa.CallInstruction)
+			if !ok {
+				return
+			}
+			callee := ci.Common().StaticCallee()
+			if callee == nil || callee.Signature.Recv() == nil || !isNamedIn(callee.Signature.Recv().Type(), "bytes", "Buffer") || len(ci.Common().Args) == 0 {
+				return
+			}
+			k, ok := bufField(ci.Common().Args[0])
+			if !ok || aliased[k] == "" {
+				return
+			}
+			n++
+			key := fmt.Sprintf("%s/%s.%s()", fname(fn), k.typ, callee.Name())
+			switch callee.Name() {
+			case "Reset", "Truncate":
+				r.bad(rule, key, c.at(in), desc, "the buffer's bytes are handed out as strings by "+aliased[k]+" (unsafe.Pointer, no copy) and interned as atom names in the table all interpreters share: after "+callee.Name()+" the next tokens overwrite the names of atoms that exist elsewhere")
+			default:
+				r.ok(rule, key, c.at(in), desc, callee.Name()+" only reads or grows the buffer", true)
+			}
+		})
+	}
+	r.analysed(rule, fmt.Sprintf("%d aliased buffer field(s), %d calls on them", len(aliased), n))
 }
